@@ -27,7 +27,7 @@ static void random_histories(carquet_reader_t* rd, int frg, int c, const tcol_t*
     for (int rep = 0; rep < count; rep++) { hop_t h[40]; int n = 1 + (int)vrng_below(&R, 30); int64_t rows = k->nlevels;
         for (int i = 0; i < n; i++) { int o = (int)vrng_below(&R, 20); int64_t kk; int kc = (int)vrng_below(&R, 8);
             kk = kc == 0 ? 1 : kc == 1 ? 1 + (int64_t)vrng_below(&R, 9) : kc == 2 ? 63 + (int64_t)vrng_below(&R, 3) : kc == 3 ? rows : kc == 4 ? rows + 5 : kc == 5 ? (int64_t)vrng_below(&R, (uint64_t)rows + 1) : kc == 6 ? 1000 + (int64_t)vrng_below(&R, 50) : 2 + (int64_t)vrng_below(&R, 300);
-            if (o < 10) { h[i].op = 'r'; h[i].k = kk; h[i].with_levels = (int)vrng_below(&R, 4) != 0; } else if (o < 15) { h[i].op = 's'; h[i].k = kk; } else if (o < 16) { h[i].op = 'c'; h[i].k = 0; } else if (o < 17) { h[i].op = 'z'; h[i].k = 0; h[i].with_levels = 1; } else if (o < 18) { h[i].op = 'h'; h[i].k = 0; } else { h[i].op = 'm'; h[i].k = 0; } }
+            if (o < 10) { h[i].op = 'r'; h[i].k = kk; h[i].with_levels = (int)vrng_below(&R, 4) != 0; } else if (o < 15) { h[i].op = 's'; h[i].k = kk; if (vrng_chance(&R, 1, 7)) { static const int64_t HUGE_K[] = {2147483647LL, 2147483648LL, 4294967296LL + 7, 3000000000LL, INT64_MAX, INT64_MAX - 1, 1LL << 40}; h[i].k = HUGE_K[vrng_below(&R, 7)]; } }   /* skip(k) = min(k, remaining) for every k */ else if (o < 16) { h[i].op = 'c'; h[i].k = 0; } else if (o < 17) { h[i].op = 'z'; h[i].k = 0; h[i].with_levels = 1; } else if (o < 18) { h[i].op = 'h'; h[i].k = 0; } else { h[i].op = 'm'; h[i].k = 0; } }
         /* finish by draining so the end of the chunk is always reached by some history */
         if (n < 39 && rep % 2 == 0) { h[n].op = 'r'; h[n].k = rows + 1; h[n].with_levels = 1; n++; }
         v_case(v_hash(h, (size_t)n * sizeof(hop_t), (uint64_t)rows + v_hash(k->def, (size_t)k->nlevels * 2, 5)));
